@@ -27,10 +27,16 @@ META = {
             "buckets, whose necessity is shown by a kernel-evaluated witness (the ConcurrentImmix SATB-barrier race with "
             "one worker). Tie: event-log conformance — every event of real GCs (all plans, 1..16 workers, yield points "
             "armed, packet storms) must be an enabled action of the model; outcome oracles (watchdog, parked counter).",
-    "note": "Liveness ('eventually completes') is proved only as deadlock-freedom inside a GC (gc_never_sleeps_partial); the "
-            "fair-termination measure is not proved. Conformance is sampled; crossbeam deques and Condvar are trusted; the "
+    "note": "Liveness is proved: gc_completes_under_fairness — on every infinite run that is weakly fair per worker action "
+            "class (finish / take / look / miss / park / wake / surrender), spawns finitely many packets (FiniteSpawn), has "
+            "finitely many environment actions and spurious wake-ups (FiniteEnv; with unboundedly many, two workers can "
+            "alternate spurious wake/park forever — argued in the file header, not formalised) and never pushes into an open "
+            "bucket while all workers wait (mutAddOpen = false, shown necessary by stranded_with_mutator_push), a pending GC "
+            "request leads to the completing park of the last worker with every stop-the-world bucket closed and empty and "
+            "every worker idle; chain lemmas request_leads_to_goal, all_workers_park_eventually, gc_in_progress_completes; "
+            "live_hypotheses_satisfiable exhibits a concrete fair run. Conformance is sampled; crossbeam deques and Condvar are trusted; the "
             "front end that attributes notifies / batch moves is untrusted (every choice is re-checked by the Lean monitor).",
-    "technique": "Lean 4 proof: inductive invariants of an n-thread transition system + event-log conformance monitor",
+    "technique": "Lean 4 proof: inductive invariants of an n-thread transition system + liveness under weak fairness (eventually-constant argument over infinite runs) + event-log conformance monitor",
     "category": "proof",
 }
 
